@@ -75,6 +75,20 @@ def gen(seed):
                 host.setdefault('links', {})[rng.choice(free)] = target
     subdirs = [rel for rel, node in fssim.walk_tree(tree) if rel != 'root'
                and not any(p in ('__pycache__',) for p in rel.split('/'))]
+    if rng.random() < 0.25:
+        # bytecode entries that are symbolic links to files elsewhere (a shared cache, a data
+        # file): as orphans the LINKS go, never what they point to
+        allfiles = [rel + '/' + f for t in ([tree] + ([ext] if ext else []))
+                    for rel, node in fssim.walk_tree(t) for f in node['files']]
+        hosts = [node for rel, node in fssim.walk_tree(tree)]
+        for _ in range(rng.randint(1, 3)):
+            if not allfiles:
+                break
+            host = rng.choice(hosts)
+            name = rng.choice(['lnk.pyc', 'gone2.pyo', 'mod.pyc', 'cache.pyc', 'test_a.pyo'])
+            if name in host['files'] or name in (host.get('flinks') or {}):
+                continue
+            host.setdefault('flinks', {})[name] = rng.choice(allfiles)
     roots = [('path', 'root')]
     if subdirs and rng.random() < 0.4:
         roots.append((rng.choice(['path', 'test-path']), rng.choice(subdirs)))
@@ -112,7 +126,7 @@ def model_orphans(tree, opt, ext=None):
     out = set()
 
     def visit(rel, node):
-        files = set(node['files'])
+        files = set(node['files']) | set(node.get('flinks') or {})
         for f in files:
             if (f.endswith('.pyc') or f.endswith('.pyo')) and f[:-1] not in files:
                 out.add(rel + '/' + f)
